@@ -12,7 +12,7 @@ RULE = ("Pool-machine histories in which suspend attempts are scheduled at arbit
         "was re-assigned and succeeded, or an episode with an accepted suspension that ends in a rejected attempt; "
         "distinct = sha1 of the case JSON")
 ASSUMPTIONS = ["a write-out length within 1e-9 relative of a tick boundary may fall on either side (3 GB at 20 ticks/s)"]
-FLOORS = {"suspensions_of_one_call_interleave_pools": 5, "had_suspension": 0.15, "suspension_finished": 0.1, "reject_C10": 0.05, "rerun_after_suspension_succeeded": 0.01}
+FLOORS = {"container_mixing_two_pipelines": 50, "suspensions_of_one_call_interleave_pools": 5, "had_suspension": 0.15, "suspension_finished": 0.1, "reject_C10": 0.05, "rerun_after_suspension_succeeded": 0.01}
 
 
 def plan(tier):
